@@ -2,17 +2,25 @@
   C13 — SQL and CSV exports cannot be broken or hijacked by stored data.
   Property theorems only; helper lemmas are in Proofs/SqlLex.lean, Proofs/CsvParse.lean, Proofs/ExportJson.lean.
 
-  Spec side: `Spec.SqlLex` (PostgreSQL's lexer, standard_conforming_strings = on; `next` recognises one token),
-  `Spec.SqlExport` (which token sequence a dump must produce: every name and value exactly one token — or the fixed group
-  of a signed number / ARRAY[…] — that decodes back), `Spec.Json` (RFC 8259), `Spec.Csv` (RFC 4180 reader that, like the
-  usual readers, skips empty lines), `Spec.CsvExport`.  Model side: `Model.Export` = sql.go and csv.go after fixes/export 01–07.
+  Spec side: `Spec.SqlLex` (PostgreSQL's lexer for text that reads the same with standard_conforming_strings on and off:
+  a plain '…' constant holding a backslash has no setting-independent reading and is REFUSED; `E'…'` is read in scan.l's
+  state xe under both settings; `next` recognises one token), `Spec.SqlExport` (which token sequence a dump must produce:
+  every name and value exactly one token — or the fixed group of a signed number / ARRAY[…] — that decodes back; the
+  statement forms are those PostgreSQL's grammar accepts: column lists, value lists and ARRAY[…] are never empty, a table
+  without columns gets `INSERT … DEFAULT VALUES`, the empty array is '{}'), `Spec.Json` (RFC 8259), `Spec.Csv` (RFC 4180
+  reader that, like the usual readers, skips empty lines), `Spec.CsvExport`.
+  Model side: `Model.Export` = sql.go and csv.go after fixes/export 01–12.
   The per-token theorems are the injection-safety content: whatever bytes a stored name or value consists of, the
   lexer's token ends exactly where the tool's text for it ends, and decodes to the original.
+  Assumptions that remain (not settings the dump can control): the text is read in an encoding in which the bytes `'` `"`
+  `\` and the line ends never occur inside a multi-byte character (true of UTF-8 and of every PostgreSQL server encoding;
+  not of the client-only encodings SJIS, BIG5, GBK, UHC, GB18030, JOHAB); names are at most 63 bytes (NAMEDATALEN).
 -/
 import PgVerif.Proofs.SqlLex
 import PgVerif.Proofs.CsvParse
 import PgVerif.Proofs.ExportJson
 import PgVerif.Proofs.SqlDump
+import PgVerif.Proofs.CsvKept
 namespace PgVerif.Props.C13
 open PgVerif PgVerif.Export PgVerif.Model.Export PgVerif.Proofs
 open PgVerif.Spec.SqlLex (next Tok)
@@ -27,12 +35,35 @@ theorem C13_ident (n rest : Bytes) (hn : n ≠ []) (hb : SqlLex.IdentBoundary re
     ∃ tok, next (quoteIdent n ++ rest) = some (some tok, rest) ∧ Spec.SqlExport.isName n tok = true :=
   SqlLex.next_quoteIdent n rest hn hb
 
-/-- String literals: for EVERY byte string `s` the text `quoteLiteral s`, followed by the end of input or by any byte
-that is neither a quote nor white space (the tool writes `,` `)` or `]`), is read as exactly one string constant whose
-value is `s`, ending exactly where the tool's text ends: no content can close the literal early or extend it. -/
+/-- String literals: for EVERY byte string `s` the text `quoteLiteral s` — `'…'` with quotes doubled when `s` has no backslash,
+`E'…'` with quotes and backslashes doubled when it has one — followed by the end of input or by any byte that is not a
+quote, white space or a dash (the tool writes `,` `)` or `]`), is read as exactly one string constant whose value is `s`,
+ending exactly where the tool's text ends: no content can close the literal early or extend it.  Because `Spec.SqlLex`
+refuses every plain constant that holds a backslash and reads `E'…'` as scan.l does under both settings, this holds
+whether the session that runs the dump has standard_conforming_strings on or off (`C13_plain_backslash_refused` shows
+that the text written before fix 11 does not pass). -/
 theorem C13_literal (s rest : Bytes) (hb : SqlLex.StrBoundary rest) :
     next (quoteLiteral s ++ rest) = some (some (.str s), rest) :=
   SqlLex.next_quoteLiteral s rest hb
+
+/-- The specification does not accept what fix 11 repaired: a plain constant `'…'` (quotes doubled, nothing else) of a
+string that holds a backslash is refused by the lexer whatever follows — e.g. the value `\'; DROP TABLE x; --`, which with
+standard_conforming_strings = off is the string `'` followed by a live `DROP TABLE`. -/
+theorem C13_plain_backslash_refused (s rest : Bytes) (hs : 92 ∈ s) (hb : SqlLex.StrBoundary rest) :
+    next (39 :: (escapeQ 39 s ++ [39]) ++ rest) = none := by
+  have hr : rest.head? ≠ some 39 := by intro h; exact (hb 39 h).1 rfl
+  have h39 : Spec.SqlLex.isSpace 39 = false := by decide
+  simp only [List.cons_append, List.append_assoc, List.nil_append, next, h39]
+  simp only [show ((39 : UInt8) = 45) = False by decide, show ((39 : UInt8) = 47) = False by decide, false_and, if_false,
+    Bool.false_eq_true, if_true]
+  rw [SqlLex.scanQuoted_escape 39 s rest hr]
+  simp [hs]
+
+/-- the hypotheses of `C13_plain_backslash_refused` hold for the witness value `\';` followed by `)`, and the conclusion
+evaluated on it: the text `'\'';')` written before fix 11 does not tokenise -/
+example : (92 : UInt8) ∈ ([92, 39, 59] : Bytes) ∧ SqlLex.StrBoundary [41] ∧ next (Spec.SqlLex.asc "'\\'';')") = none := by
+  refine ⟨by decide, ?_, by decide +kernel⟩
+  intro c hc; simp at hc; subst hc; decide
 
 /-- Comment lines: for EVERY name `s`, prefix and suffix without line breaks, the line `--` prefix commentText(s) suffix
 followed by a line break is read as exactly one comment token that stops at that line break (the name cannot end the
@@ -66,10 +97,11 @@ theorem C13_json_check (F : FloatFmt) (hF : ExportJson.FloatOK F) (kvs : List (B
   ExportJson.textAgrees_mapToJSON F hF kvs
 
 /-- Values: for EVERY cell value — NULL, booleans, integers of any sign, floats (finite, NaN, ±Inf), strings of any bytes,
-arrays nested to any depth, maps with hostile keys — the text of `formatSQLValue`, followed by a comma, `)` or `]`, is read by
-PostgreSQL's lexer as exactly the tokens `valueToks` and nothing of what follows is consumed; and the spec's decoder
-(`Spec.SqlExport.value`: NULL ⇔ nil, TRUE/FALSE, `-`? number with the decimal text, one string constant with exactly the
-bytes, one string constant holding valid JSON equal to the map, ARRAY [ … ] recursively) accepts exactly these tokens.
+arrays nested to any depth (empty ones included), maps with hostile keys — the text of `formatSQLValue`, followed by a comma,
+`)` or `]`, is read by PostgreSQL's lexer as exactly the tokens `valueToks` and nothing of what follows is consumed; and the
+spec's decoder (`Spec.SqlExport.value`: NULL ⇔ nil, TRUE/FALSE, `-`? number with the decimal text, one string constant with
+exactly the bytes, one string constant holding valid JSON equal to the map, ARRAY [ … ] with AT LEAST ONE element
+recursively, the string constant '{}' for the empty array) accepts exactly these tokens.
 `FloatOK`/`FloatSqlOK` are the contracts on the library's `%v` of floats. -/
 theorem C13_value (F : FloatFmt) (hF : ExportJson.FloatOK F) (hS : SqlValue.FloatSqlOK F) (v : GoVal) :
     (∀ rest : Bytes, SqlValue.closeB rest.head? →
@@ -78,12 +110,18 @@ theorem C13_value (F : FloatFmt) (hF : ExportJson.FloatOK F) (hS : SqlValue.Floa
   ⟨SqlValue.reads_value F hS v, SqlValue.value_valueToks F hF v⟩
 
 /-- Whole export (composition): for every dump whose table and column names are non-empty and whose column type texts read
-as bare words (`DumpOK`; true of every type text pgread itself produces, see `C13_types`), and every timestamp text without
-a line break, the text of DumpResult.ToSQL tokenises under PostgreSQL's lexer, and the token sequence is exactly the one the
-property demands (`Spec.SqlExport.checkDump` consumes it entirely): per database two comments carrying name and OID, per
-table a comment, CREATE TABLE IF NOT EXISTS name ( column type, … ) ; and INSERT INTO name ( columns ) VALUES ( cells ), … ;
-where every database, table and column name and every value is exactly one comment / identifier / literal token (or the
-fixed group of a signed number or ARRAY[…]) that decodes back to the original, NULLs stay NULL, maps are valid JSON. -/
+as bare words (`DumpOK`; true of every type text pgread itself produces, see `C13_types`; tables may have no columns, no
+rows, or both), and every timestamp text without a line break, the text of DumpResult.ToSQL tokenises under PostgreSQL's
+lexer — the same way with standard_conforming_strings on and off — and the token sequence is exactly the one the property
+demands (`Spec.SqlExport.checkDump` consumes it entirely): per database two comments carrying name and OID, per table a
+comment, CREATE TABLE IF NOT EXISTS name ( column type, … ) ; and, for a table with columns and rows,
+INSERT INTO name ( columns ) VALUES ( cells ), … ; with no empty list anywhere; for a table with rows but no columns
+INSERT INTO name DEFAULT VALUES ; once per row.  Every database, table and column name and every value is exactly one
+comment / identifier / literal token (or the fixed group of a signed number or of ARRAY[…] with at least one element) that
+decodes back to the original, NULLs stay NULL, maps are valid JSON.
+What "well-formed statement" means here is the token skeleton above, written from PostgreSQL's grammar (gram.y:
+OptTableElementList may be empty; insert_column_list, the rows of VALUES and the element list of ARRAY[…] may not);
+PostgreSQL's parser itself is not in the loop, and type checking of the values against the column types is not part of it. -/
 theorem C13_sql (F : FloatFmt) (hF : ExportJson.FloatOK F) (hS : SqlValue.FloatSqlOK F) (now : Bytes)
     (hnow : ∀ c ∈ now, Spec.SqlLex.isNewline c = false) (d : DumpResult) (ok : SqlDump.DumpOK d) :
     Spec.SqlExport.sqlSafe F d (toSQL F now d) = true := by
@@ -111,9 +149,12 @@ theorem C13_types (oid : Int) : SqlTable.TypeTextOK (pgTypeToSQL (SqlDump.typeNa
   SqlDump.pgread_types_ok oid
 
 /-- CSV, one table: for every table with at least one column (and whose header is not a single empty name) and ANY cell
-texts — commas, quotes, CR, LF, leading spaces, empty strings, NULLs — a standard CSV reader gets back exactly the header
-of column names followed by one record per row with the same field texts.  (Includes the one-column rows with an empty
-field, which the unfixed code wrote as empty lines.) -/
+texts — commas, quotes, CR, LF, leading spaces, empty strings, NULLs — an RFC 4180 reader (`Spec.Csv`, which keeps CR LF
+inside quoted fields and skips empty lines) gets back exactly the header of column names followed by one record per row
+whose fields are the texts csv.go chose for the cells (`cellCSV`: this theorem is about the FRAMING — no cell text can add,
+drop or split a field or a record; which text stands for a value is csv.go's choice: NULL and the empty string are both
+the empty field, and a cell whose array/map holds a NaN or infinite float is the empty field because json.Marshal fails).
+(Includes the one-column rows with an empty field, which the unfixed code wrote as empty lines.) -/
 theorem C13_csv (F : FloatFmt) (t : TableDump) (hc : t.columns ≠ []) (hh : t.columns.map (·.name) ≠ [[]]) :
     Spec.Csv.parse (tableToCSV F t) = some (t.columns.map (·.name) :: t.rows.map fun r => t.columns.map (cellCSV F r)) := by
   rw [CsvParse.tableToCSV_lines F t hc hh]
@@ -124,9 +165,21 @@ theorem C13_csv (F : FloatFmt) (t : TableDump) (hc : t.columns ≠ []) (hh : t.c
   · subst h; simpa using hc
   · subst h; simpa using hc
 
+/-- CSV, no value is dropped: the only cells written as the EMPTY field are NULL (nil, or a missing key) and the empty string.
+Every boolean, number, non-empty string, array and map has a non-empty field text — for arrays and maps the text of
+json.Marshal, or, when Marshal refuses the value because it holds a NaN or infinite float, the text of sql.go's JSON writer
+(before fix 13 such a cell was silently written as the empty field, i.e. read back as NULL).  So the records of `C13_csv`
+satisfy the spec's `valuesKept`.  `FloatOK F`: the contract on `%v` of floats (never the empty text). -/
+theorem C13_csv_value_kept (F : FloatFmt) (hF : ExportJson.FloatOK F) :
+    (∀ v : GoVal, formatCSVValue F v = [] → v = .nil ∨ v = .str []) ∧
+    ∀ t : TableDump, Spec.CsvExport.valuesKept t (t.columns.map (·.name) :: t.rows.map fun r => t.columns.map (cellCSV F r)) = true :=
+  ⟨CsvKept.formatCSVValue_nil F hF, CsvKept.valuesKept_model F hF⟩
+
 /-- CSV, whole dump: the export is the concatenation, database by database and table by table, of one header line, the
-table's CSV and one empty line; the header line is a single line (no name can break it) that decodes back to the
-database and table names. -/
+table's CSV and one empty line; the header line is a single line (no name can break it), and the database and table names
+are ONE OF its decodings (`headerOK` tries every occurrence of `, Table: ` as the separator: when the database name itself
+contains `, Table: ` the line has several readings — (`a, Table: b`, `c`) and (`a`, `b, Table: c`) give the same line — so
+the header does not identify the pair uniquely; the property asks only for the concatenation). -/
 theorem C13_csv_multi (F : FloatFmt) (d : DumpResult) :
     toCSV F d = d.flatMap (fun db => db.tables.flatMap fun t => CsvParse.headerLine db.name t.name ++ [10] ++ tableToCSV F t ++ [10]) ∧
     ∀ db t : Bytes, (∀ c ∈ CsvParse.headerLine db t, (c == 10 || c == 13) = false) ∧
@@ -159,6 +212,16 @@ example :
     t.columns ≠ [] ∧ t.columns.map (·.name) ≠ [[]] ∧
     Spec.Csv.parse (tableToCSV SqlDump.exampleF t) = some [[[99]], [[]], [[]], [[97, 44, 34, 10]]] := by
   decide
+
+/-- `valuesKept` has teeth: the records the code produced BEFORE fix 13 for a cell holding the array [1.5, NaN] (the empty
+field) are rejected, the records after it are accepted -/
+example :
+    let t : TableDump := { name := [116], columns := [{ name := [97], type := [], typID := 1022 }, { name := [98], type := [], typID := 25 }],
+                           rows := [[([97], .arr [.f64 0x3ff8000000000000, .f64 0x7ff8000000000001]), ([98], .str [120])]], rowCount := 1 }
+    Spec.CsvExport.valuesKept t [[[97], [98]], [[], [120]]] = false ∧
+    Spec.CsvExport.valuesKept t [[[97], [98]], [Spec.SqlLex.asc "[0,\"NaN\"]", [120]]] = true ∧
+    Spec.CsvExport.valuesKept t (t.columns.map (·.name) :: t.rows.map fun r => t.columns.map (cellCSV SqlDump.exampleF r)) = true := by
+  decide +kernel
 
 /-- non-vacuity of the contracts on the float rendering: a rendering exists that satisfies both -/
 example : ExportJson.FloatOK SqlDump.exampleF ∧ SqlValue.FloatSqlOK SqlDump.exampleF := SqlDump.exampleF_ok
@@ -205,5 +268,48 @@ example :
     (Spec.SqlExport.verdict (Spec.SqlExport.table SqlDump.exampleF (t "Users"))
       (tableToSQL SqlDump.exampleF (t "Users")) == "ok") = true := by
   decide +kernel
+
+/-- tables WITHOUT COLUMNS and EMPTY ARRAYS are inside `DumpOK` (no hypothesis excludes them), and the composition evaluated on
+such a dump (kernel computation): a zero-column table with two rows, an empty table without columns, an array column holding
+the empty array, an array with an empty array inside, and the value `\'; DROP TABLE x; --` -/
+example :
+    let d : DumpResult := [{ oid := 1, name := [100], tables := [
+      { name := [116], rowCount := 2, columns := [], rows := [[], []] },
+      { name := [101], rowCount := 0, columns := [], rows := [] },
+      { name := [117], rowCount := 1,
+        columns := [{ name := [97], type := SqlDump.typeNameOf 1007, typID := 1007 }, { name := [98], type := SqlDump.typeNameOf 25, typID := 25 }],
+        rows := [[([97], .arr []), ([98], .str [92, 39, 59, 32, 68, 82, 79, 80, 32, 84, 65, 66, 76, 69, 32, 120, 59, 32, 45, 45])],
+                 [([97], .arr [.arr [], .int 1])]] }] }]
+    SqlDump.DumpOK d ∧ Spec.SqlExport.sqlSafe SqlDump.exampleF d (toSQL SqlDump.exampleF [84] d) = true := by
+  refine ⟨?_, by decide +kernel⟩
+  intro db hdb t ht
+  simp only [List.mem_singleton] at hdb
+  subst hdb
+  simp only [List.mem_cons, List.not_mem_nil, or_false] at ht
+  rcases ht with h | h | h <;> subst h
+  · exact ⟨by simp, by intro c hc; simp at hc⟩
+  · exact ⟨by simp, by intro c hc; simp at hc⟩
+  · refine ⟨by simp, ?_⟩
+    intro c hc
+    simp only [List.mem_cons, List.not_mem_nil, or_false] at hc
+    rcases hc with h | h <;> subst h
+    · exact ⟨by simp, C13_types 1007⟩
+    · exact ⟨by simp, C13_types 25⟩
+
+/-- the specification has teeth (2): the texts written BEFORE fixes 09–11 are rejected —
+`INSERT INTO t () VALUES (), ();` for a table without columns (a syntax error in PostgreSQL), `ARRAY[]` for the empty
+array ("cannot determine type of empty array"), and the plain constant `'\'';…'` for a string with a backslash (does not
+even tokenise: its reading depends on standard_conforming_strings) — while the repaired texts are accepted -/
+example :
+    let t0 : TableDump := { name := [116], columns := [], rows := [[], []], rowCount := 2 }
+    let ta (v : GoVal) : TableDump := { name := [116], columns := [{ name := [97], type := [], typID := 25 }], rows := [[([97], v)]], rowCount := 1 }
+    let verdict (t : TableDump) (text : String) := Spec.SqlExport.verdict (Spec.SqlExport.table SqlDump.exampleF t) (Spec.SqlLex.asc text)
+    verdict t0 "-- Table: t (2 rows)\nCREATE TABLE IF NOT EXISTS t (\n);\n\nINSERT INTO t () VALUES\n    (),\n    ();\n" = "bad:tok" ∧
+    verdict t0 "-- Table: t (2 rows)\nCREATE TABLE IF NOT EXISTS t (\n);\n\nINSERT INTO t DEFAULT VALUES;\nINSERT INTO t DEFAULT VALUES;\n" = "ok" ∧
+    verdict (ta (.arr [])) "-- Table: t (1 rows)\nCREATE TABLE IF NOT EXISTS t (\n    a TEXT\n);\n\nINSERT INTO t (a) VALUES\n    (ARRAY[]);\n" = "bad:tok" ∧
+    verdict (ta (.arr [])) "-- Table: t (1 rows)\nCREATE TABLE IF NOT EXISTS t (\n    a TEXT\n);\n\nINSERT INTO t (a) VALUES\n    ('{}');\n" = "ok" ∧
+    verdict (ta (.str [92, 39, 59])) "-- Table: t (1 rows)\nCREATE TABLE IF NOT EXISTS t (\n    a TEXT\n);\n\nINSERT INTO t (a) VALUES\n    ('\\'';');\n" = "bad:lex" ∧
+    verdict (ta (.str [92, 39, 59])) "-- Table: t (1 rows)\nCREATE TABLE IF NOT EXISTS t (\n    a TEXT\n);\n\nINSERT INTO t (a) VALUES\n    (E'\\\\'';');\n" = "ok" := by
+  refine ⟨by decide +kernel, by decide +kernel, by decide +kernel, by decide +kernel, by decide +kernel, by decide +kernel⟩
 
 end PgVerif.Props.C13
